@@ -255,7 +255,16 @@ func init() {
 				matches, _ := filepathGlob(*raceLog + "*")
 				for _, m := range matches {
 					b, _ := os.ReadFile(m)
-					races += countRaces(string(b))
+					n := countRaces(string(b))
+					races += n
+					if n > 0 {
+						txt := string(b)
+						if len(txt) > 6000 {
+							txt = txt[:6000]
+						}
+						res.Extra[fmt.Sprintf("race_report_history_%d", h)] = txt
+					}
+					os.Remove(m) // reports are attributed to the history they occurred in
 				}
 			}
 			sort.Slice(events, func(i, j int) bool { return events[i]["seq"].(int64) < events[j]["seq"].(int64) })
